@@ -62,8 +62,8 @@ package odal
 //@   modifies {C03} m.currentSession, m.currentParticipant, m.state, contents(s.moduleStates)
 //@   allocates
 //@   ensures m.currentSession == s && m.currentParticipant == p && m.state != nil
-//@   ensures {C16,C03} "odal" in s.moduleStates && s.moduleStates["odal"].(*State) == m.state
-//@   ensures {C16,C03} old("odal" in s.moduleStates) ==> m.state == old(s.moduleStates["odal"].(*State)) && same_contents(s.moduleStates)
+//@   ensures {C16,C03,C02,C10} "odal" in s.moduleStates && s.moduleStates["odal"].(*State) == m.state
+//@   ensures {C16,C03,C02,C10} old("odal" in s.moduleStates) ==> m.state == old(s.moduleStates["odal"].(*State)) && same_contents(s.moduleStates)
 //@   ensures {C03} !old("odal" in s.moduleStates) ==> fresh(m.state)
 
 //@ func (*modules/odal.Module).handleAssetInstanceAdd
